@@ -198,6 +198,8 @@ def run(tier, t0):
     window_rules(res, prog)
     digits_rule(res, prog)
     finish_item_rule(res, prog)
+    from . import parseloop
+    parseloop.check(res, prog, 'C09.5', None)
     res.assumptions += [
         'nom combinators and circular::Buffer are covered through the API table only (consume/fill/grow clamp their argument; verified by reading circular 0.3)',
         'the Read / HTTP chunk source eventually returns 0 bytes or an error',
